@@ -279,6 +279,67 @@ def real_remap_history(inp, maps, bpt_s, prefix="SUPER_", join_gap=JOIN_GAP):
     return last
 
 
+def variant_script(rng, ptx):
+    """another legal-looking map over the same input that SHARES pieces (same scaffold, start, end) with `ptx`: two neighbouring
+    pieces of one input scaffold merged into one, a piece split in two, a piece's orientation or tags changed, pieces regrouped"""
+    import copy
+    pieces = [copy.deepcopy(f) for ps in ptx for f in ps["rows"] if f["t"] == "F"]
+    if not pieces:
+        return copy.deepcopy(ptx)
+    for _ in range(rng.randint(1, 2)):
+        k = rng.random()
+        if k < 0.4:
+            # merge two pieces of one scaffold that abut
+            cands = [(a, b) for a in pieces for b in pieces if a is not b and a["name"] == b["name"] and a["end"] + 1 == b["start"]]
+            if cands:
+                a, b = rng.choice(cands)
+                a["end"] = b["end"]
+                pieces = [x for x in pieces if x is not b]
+        elif k < 0.7:
+            f = rng.choice(pieces)
+            if f["end"] - f["start"] >= 8:
+                c = rng.randint(f["start"] + 2, f["end"] - 3)
+                g = copy.deepcopy(f); g["start"] = c + 1; f["end"] = c
+                pieces.insert(pieces.index(f) + 1, g)
+        else:
+            f = rng.choice(pieces); f["strand"] = -f["strand"]
+    rng.shuffle(pieces) if rng.random() < 0.5 else None
+    out, i, n = [], 0, 0
+    while i < len(pieces):
+        n += 1
+        k = rng.randint(1, 3)
+        rows = []
+        for f in pieces[i:i + k]:
+            if rows:
+                rows.append(conv.jgap(100))
+            rows.append(f)
+        painted = "Painted" in rows[0]["tags"]
+        for f in rows:
+            if f["t"] == "F":
+                f["tags"] = [t for t in f["tags"] if t != "Painted"] + (["Painted"] if painted else [])
+        out.append(conv.jscaffold(f"Scaffold_{n}", rows))
+        i += k
+    return out
+
+
+def run_history_cases(ctx, stream, cases, proj, oracle, classify=None):
+    """state carried from one remap to the next must not matter: each case's map is remapped AFTER one or two other maps over the same
+    input (sharing pieces with it) on the SAME IndexedAssembly object in the same process; the result must equal a fresh run's
+    (projection `proj`), and the property's oracle is applied to it"""
+    for c in cases:
+        earlier = [variant_script(ctx.rng, c["ptx"]) for _ in range(ctx.rng.randint(1, 2))]
+        fresh = real_remap(c["input"], c["ptx"], c["bpt"])
+        hist = real_remap_history(c["input"], earlier + [c["ptx"]], c["bpt"])
+        inp = {k: c[k] for k in ("input", "ptx", "bpt", "kind") if k in c}
+        inp["earlier_maps_on_the_same_IndexedAssembly"] = earlier
+        ctx.out.case(stream, inp, ("history", c.get("kind"), len(earlier), "err" in hist))
+        if proj(hist) != proj(fresh):
+            msgs = oracle(c, hist) if "ok" in hist else []
+            what = msgs[0] if msgs else ("the run fails with " + hist["err"] + " although a fresh run succeeds" if "err" in hist else
+                                         "result differs from a fresh run's (the property holds for the fresh run: a remap must not depend on earlier remaps of the same input object)")
+            ctx.out.oracle_fail(stream, inp, "after earlier remaps on the same IndexedAssembly object: " + what)
+
+
 def model_requests(cases):
     return [{"id": i, "kind": "remap", "input": c["input"], "ptx": c["ptx"], "prefix": c.get("prefix", "SUPER_"),
              "join_gap": c.get("join_gap", JOIN_GAP), "bpt": c["bpt"]} for i, c in enumerate(cases)]
@@ -1056,6 +1117,28 @@ def make_case(rng, kind, **kw):
                     pieces += [conv.jgap(100), conv.jfrag(0, f"s{n}", cut + 1, end, 1, ["Painted"] + ([special] if special else []))]
                 ptx.append(conv.jscaffold(f"Scaffold_{n}", pieces))
         return {"kind": "tagged2", "input": inp, "ptx": ptx, "bpt": bpt}
+    if kind == "targetdrop":
+        # Target-mode map from which whole pieces were REMOVED by hand (lines deleted from the AGP): contigs absent from the map lie far
+        # from any piece end, inside scaffolds that are partly placed (some of them in Target-tagged Pretext scaffolds)
+        inp = rand_input(rng, revp=revp, nscaf=4, maxrows=6, maxlen=3000, minlen=20)
+        ptx, _ = pretext_script(rng, inp, bpt, paint=0.8, cutp=0.8)
+        ptx = decorate_tags(rng, ptx, mode="target")
+        # drop single pieces (never a whole Pretext scaffold's last fragment: keep maps non-empty)
+        for ps in ptx:
+            frs = [r for r in ps["rows"] if r["t"] == "F"]
+            if len(frs) >= 2 and rng.random() < 0.6:
+                victim = rng.choice(frs[1:])
+                rows, skip = [], False
+                for r in ps["rows"]:
+                    if r is victim:
+                        if rows and rows[-1]["t"] == "G":
+                            rows.pop()
+                        continue
+                    rows.append(r)
+                while rows and rows[-1]["t"] == "G":
+                    rows.pop()
+                ps["rows"] = rows
+        return {"kind": "tagged", "input": inp, "ptx": ptx, "bpt": bpt}
     if kind == "hole":
         # NOT a PretextView map: two pieces that both reach a little way (< error length) into a small contig from either side and
         # leave a stretch of it covered by neither (pieces do not abut).  Both overhangs <= error length, so nothing is trimmed at
